@@ -123,6 +123,32 @@ def known_open(pid):
     return [k for k in load_known() if k.get('status') == 'open' and k.get('property') == pid]
 
 
+def run_lemmas(cfgnames=('sec',)):
+    """prove real-helper == summary for every summary; returns {summary: {'ok': bool, 'units': n, 'paths': n,
+    'failed': [...]}}"""
+    from vf import lemmas
+    from symx import summaries
+    us = lemmas.lemma_units(cfgnames)
+    res = run_specs(us)
+    out = {n: {'ok': True, 'units': 0, 'paths': 0, 'obligations': 0, 'failed': []} for n in summaries.NAMES}
+    for d in res:
+        n = lemmas.summary_of_unit(d['name'])
+        if n not in out:
+            out[n] = {'ok': True, 'units': 0, 'paths': 0, 'obligations': 0, 'failed': []}
+        o = out[n]
+        o['units'] += 1
+        o['paths'] += d['paths']
+        o['obligations'] += d['obligations']
+        if d['failures'] or d['inconclusive'] or d.get('harness_error'):
+            o['ok'] = False
+            o['failed'].append({'unit': d['name'], 'claims': [f['claims'][:3] for f in d['failures']][:2],
+                                'inconclusive': d['inconclusive'][:2]})
+    for n, o in out.items():
+        if o['units'] == 0:
+            o['ok'] = False
+    return out
+
+
 def main_run(pid, tier, specs, meta, lemma_results=None):
     """run, triage, write evidence, return exit code"""
     t0 = time.time()
@@ -205,11 +231,14 @@ def main_run(pid, tier, specs, meta, lemma_results=None):
     print('%s %s: units=%d paths=%d obligations=%d discharged=%d queries=%d solver=%.1fs wall=%.1fs' % (
         pid, tier, len(results), tot('paths'), tot('obligations'), tot('discharged'), tot('queries'),
         tot('solver_s'), wall))
+    slow = sorted(results, key=lambda d: -d.get('wall_s', 0))[:5]
+    print('slowest units: ' + ', '.join('%s %.0fs/%dp' % (d['name'], d.get('wall_s', 0), d['paths']) for d in slow))
     for k in sorted(set(k['id'] for k, _, _ in known_seen)):
         kf = [x for x in kopen if x['id'] == k][0]
         print('KNOWN-FINDING: property=%s %s' % (pid, kf['what']))
     for n, f, path in violations:
-        print('  unit %s: %s inputs=%s' % (n, f['claims'][:4], json.dumps(f['inputs'])[:400]))
+        brief = {k: v for k, v in f['inputs'].items() if not k.startswith(('R_', 'spsr_', 'elr_', 'mem'))}
+        print('  unit %s: %s inputs=%s' % (n, f['claims'][:4], json.dumps(brief)[:400]))
         print('VIOLATION property=%s replay=%s' % (pid, path))
     rc = 0
     if violations:
